@@ -472,3 +472,70 @@ def f_density_large(case):
 FACETS.append(Facet('diff/density_matrix-large-N', f_density_large, backend='both',
                     strategy=lambda t: st.integers(8, 10).flatmap(lambda N: st.fixed_dictionaries({'N': st.just(N), 'r': st.integers(0, 1), 'seed': st.integers(0, 10 ** 6)})),
                     examples={'quick': 12, 'thorough': 150}, shards={'quick': 2, 'thorough': 4}))
+
+
+# ---- many-qubit differential: the same deterministic class-level operations on registers of 8..70 qubits (both packages, exact agreement)
+def f_large_diff(case):
+    N, r, seed = case['N'], case['r'], case['seed']
+    c1 = ref.random_big_clifford(N, seed, case['ngates'])
+    c2 = ref.random_big_clifford(N, seed + 1, 3 * N)
+    rs = np.random.RandomState(seed)
+    TL, TK = B.tableau_rows(c1)
+    # observables: random strings, and signed products of active stabilizers (non-zero expectation)
+    OL = rs.randint(0, 4, size=(6, N)); OK = rs.randint(0, 4, size=6)
+    for j in range(3):
+        l = np.zeros(N, dtype=np.int64); k = 2 * int(rs.randint(0, 2))
+        for a in range(r, N):
+            if rs.randint(0, 2):
+                l, k = ref.pmul(l, k, TL[a], TK[a])
+        OL[j] = l; OK[j] = k
+    n = int(rs.randint(1, N + 1))
+    region = sorted(rs.choice(N, size=n, replace=False).tolist())
+    m = max(1, min(3, N - 1))
+    sub = sorted(rs.choice(N, size=m, replace=False).tolist())
+    small = ref.random_big_clifford(m, seed + 2, 6)
+    gl = rs.randint(0, 4, size=N); gl[int(rs.randint(0, N))] = 1 + int(rs.randint(0, 3)); gk = 2 * int(rs.randint(0, 2))
+    bits = rs.randint(0, 2, size=N)
+    from checks import large as _lg
+    bits_ok = _lg._prob_of_bits(TL, TK, 0, N, None, rs)[0] if r == 0 else None       # a string with non-zero probability
+    out = {}
+    for be in ('np', 'torch'):
+        Bk = B.backend(be)
+        res = {}
+        S = Bk.state(c1, r)
+        O = Bk.plist(OL, OK)
+        res['expect'] = norm(S.expect(O), Bk)
+        res['entropy'] = norm(S.entropy(region), Bk)
+        M1, M2 = Bk.cmap(c1), Bk.cmap(c2)
+        res['compose'] = norm(M1.compose(M2), Bk)
+        res['inverse'] = norm(M1.inverse(), Bk)
+        res['to_state'] = norm(M2.to_state(r), Bk)
+        res['to_map'] = norm(S.to_map(), Bk)
+        E = Bk.cmap(c2); E.embed(Bk.cmap(small), Bk.mask(sub, N))
+        res['embed'] = norm(E, Bk)
+        T = Bk.plist(OL, OK); T.transform_by(M2)
+        res['transform'] = norm(T, Bk)
+        R = Bk.state(c1, r); R.rotate_by(Bk.pauli(gl, gk))
+        res['rotate-state'] = norm(R, Bk)
+        Tm = Bk.plist(OL, OK); Tm.transform_by(Bk.cmap(small), Bk.mask(sub, N))
+        res['transform-masked'] = norm(Tm, Bk)
+        if r == 0:
+            Tt = B.torch_mods()['torch'] if be == 'torch' else None
+            for nm, bb in (('get_prob-possible', bits_ok), ('get_prob-random', bits)):
+                arg = np.array(bb, dtype=np.int_) if be == 'np' else Tt.tensor(np.array(bb), dtype=Tt.float32)
+                res[nm] = norm(Bk.state(c1, 0).get_prob(arg), Bk)
+        Y = Bk.poly(OL, OK, [complex(j + 1, -j) for j in range(6)])
+        res['poly-product'] = norm((Y @ Y).reduce(), Bk)
+        res['tokenize'] = norm(O.tokenize(), Bk)
+        out[be] = res
+    for key in out['np']:
+        if not same(out['np'][key], out['torch'][key]):
+            raise Mismatch('%s on %d qubits (r=%d) differs between the packages:\n  pyclifford   %s\n  torchclifford %s' % (
+                key, N, r, str(out['np'][key])[:300], str(out['torch'][key])[:300]), 'large-' + key)
+    return {'nt': N > 8, 'sub_evals': len(out['np']), 'labels': ['N=%d' % N, 'r=%d' % r]}
+
+
+FACETS.append(Facet('diff/large-N-ops', f_large_diff, backend='both',
+                    strategy=lambda t: st.fixed_dictionaries({'N': st.sampled_from([8, 9, 16, 17, 31, 32, 33, 40, 63, 64, 65, 70]), 'r': st.sampled_from([0, 0, 1, 2, 5]),
+                                                              'seed': st.integers(0, 10 ** 6), 'ngates': st.sampled_from([0, 5, 60, 300])}),
+                    examples={'quick': 40, 'thorough': 1500}, shards={'quick': 2, 'thorough': 8}))
